@@ -44,6 +44,7 @@ type gatherModel struct {
 	failed      bool
 	lastCandLen int
 	stunServed  map[string]bool
+	strict      bool // C08: no wind-down wait after Close, the bubble's end is the census
 }
 
 func newGatherModel(raw json.RawMessage) *gatherModel {
@@ -211,11 +212,13 @@ func (m *gatherModel) Apply(ev string) {
 			m.leak("after Close returned", open)
 		}
 		// ... superseded gatherings once they have wound down (their own I/O timeouts)
-		time.Sleep(30 * time.Second)
-		synctest.Wait()
-		m.inflight = nil
-		if open := m.openResources(-1); len(open) > 0 {
-			m.leak("after Close returned and every superseded gathering has wound down", open)
+		if !m.strict {
+			time.Sleep(30 * time.Second)
+			synctest.Wait()
+			m.inflight = nil
+			if open := m.openResources(-1); len(open) > 0 {
+				m.leak("after Close returned and every superseded gathering has wound down", open)
+			}
 		}
 	default:
 		panic("unknown event " + ev)
